@@ -1,0 +1,18 @@
+//go:build verif
+
+// Machine-checked contracts (Gobra-style //@ comments) for the verification harness in /verif.
+// This file contains no code; it is compiled only under the build tag "verif".
+package vm
+
+// governance precompile (address 0xfe): total on every input
+//@ func (*AdminOP).Run
+//@   props C09 C14
+//@   requires c != nil
+//@   ensures  [short-input-is-an-error] len(input) < 52 ==> result1 != nil
+//@   atcall callback assert [sender-is-bytes-32-to-52] len(arg1) >= 0
+
+//@ func (*AdminDBApp).From
+//@   props C14
+//@   requires app != nil
+//@   pure
+//@   ensures result == app.Addr
